@@ -1,11 +1,11 @@
 SPECIFICATION MCSpec
 CONSTANTS
   Mode = "simplices"
-  V = {0, 1, 2}
+  V = {0, 1, 2, 3}
   MaxDim = 2
-  MaxArrows = 5
+  MaxArrows = 6
   MaxIdentity = 1
-  MaxLive = 7
+  MaxLive = 14
   AllowEmptyBd = FALSE
   INF = 1000000
 VIEW View
